@@ -639,7 +639,9 @@ func (a *Analysis) classifyScalars() {
 	for changed := true; changed; {
 		changed = false
 		for _, fn := range a.funcs {
-			for _, b := range fn.Blocks {
+			// dominators first: a byte read that dominates a later read of the same byte
+			// must become the source both belong to, whatever the block numbering is
+			for _, b := range fn.DomPreorder() {
 				for _, ins := range b.Instrs {
 					// parameters of module callees
 					if ci, ok := ins.(ssa.CallInstruction); ok {
